@@ -204,7 +204,20 @@ def _roles(ck: Checker) -> None:
             ck.require(s is not None and d is not None and norm(s) == src and norm(d) == dest, "C18.roles", fn, n, f"{name} moves {src} -> {dest}", f"{name} calls transfer({norm(s) if s is not None else None}, {norm(d) if d is not None else None}, ...): source and destination roles are wrong", construct=f"{name}: transfer(src, dest)")
             for role in ("data", "cache"):
                 defs = reaching_defs(g, n.id, role)
-                ok = bool(defs) and all(norm(getattr(x.ast, "value", None)) == f"fs_index.storage_map[()].{role}" for x in defs)
+                def _full(x):
+                    v = getattr(x.ast, "value", None)
+                    if v is None:
+                        return []
+                    out_ = [norm(v)]
+                    # `info = fs_index.storage_map[()]; data = info.data`: the local is put back
+                    if isinstance(v, ast.Attribute) and isinstance(v.value, ast.Name):
+                        for d2 in reaching_defs(g, x.id, v.value.id):
+                            v2 = getattr(d2.ast, "value", None)
+                            if v2 is not None and isinstance(d2.ast, (ast.Assign, ast.AnnAssign)):
+                                out_.append(f"{norm(v2)}.{v.attr}")
+                    return out_
+
+                ok = bool(defs) and all(f"fs_index.storage_map[()].{role}" in _full(x) for x in defs)
                 ck.require(ok, "C18.roles", fn, n, f"`{role}` is the root mapping's {role} storage", f"`{role}` is bound to {[norm(getattr(x.ast, 'value', None)) for x in defs]}", construct=f"{name}: {role} binding")
             # guarded by both being object storages
             w = cut(g, [n.id], lambda t, lab: t.kind == "test" and lab == "T" and norm(t.ast) == "isinstance(data, ObjectStorage)")
